@@ -3,4 +3,10 @@
 
 pub mod rt;
 pub mod vptr;
+#[cfg(feature = "native")]
+pub mod native;
+#[cfg(feature = "native")]
+pub mod registry;
+
 pub mod scn_basic;
+pub mod scn_c13;
